@@ -401,6 +401,17 @@ func (g *TxGen) GenRegistry(t *rapid.T) *RegTx {
 			rt.GovernanceModel = registry.GovernanceRuntime
 			toRuntimeGov = true
 		}
+		overLimit := ""
+		switch rapid.IntRange(0, 7).Draw(t, "rtOverLimit") {
+		case 0:
+			// accepted by every check of the registry, rejected afterwards by the roothash application, which is told
+			// about runtime updates (its consensus parameters limit the messages of a runtime)
+			rt.Executor.MaxMessages = 33 + uint32(rapid.IntRange(0, 1000).Draw(t, "rtMaxMessages"))
+			overLimit = "executor max messages above the roothash limit"
+		case 1:
+			rt.TxnScheduler.MaxInMessages = 33 + uint32(rapid.IntRange(0, 1000).Draw(t, "rtMaxInMessages"))
+			overLimit = "max incoming messages above the roothash limit"
+		}
 		owner := w.Entities[w.Spec.RtOwner%len(w.Entities)]
 		signer := owner
 		unauthorized := ""
@@ -416,6 +427,12 @@ func (g *TxGen) GenRegistry(t *rapid.T) *RegTx {
 			d.Note = "update runtime to-runtime-governance"
 		}
 		d.Mutated = unauthorized
+		if overLimit != "" {
+			d.Note += " (" + overLimit + ")"
+			if d.Mutated == "" {
+				d.Mutated = overLimit
+			}
+		}
 		res := &RegTx{TxDesc: d, Unauthorized: unauthorized}
 		if unauthorized == "" {
 			nrt := rt
